@@ -297,7 +297,10 @@ class Image(object):
         return self.d[off:off + self.inode_size]
 
     def inode(self, ino):
-        return Inode(ino, self.inode_raw(ino), self.inode_size)
+        I = Inode(ino, self.inode_raw(ino), self.inode_size)
+        if self.sb.s_creator_os == 1 and not self.is64:
+            I.file_acl = I.i_file_acl_lo          # Hurd: the word behind l_i_blocks_high is h_i_mode_high, not the upper half of i_file_acl
+        return I
 
     def inode_csum_seed(self, ino, gen):
         c = crc32c(self.csum_seed, struct.pack('<I', ino))
